@@ -282,7 +282,11 @@ class ParseContext(ParserEngine):
         try:
             return exp(self)
         except TypeError as e:
-            if "arguments" in str(e):
+            # NOTE: only a failure to bind the arguments of exp itself (raised at the
+            #   call above, so the traceback has no deeper frame) selects the legacy
+            #   calling convention; a TypeError from inside exp passes through
+            tb = e.__traceback__
+            if tb is not None and tb.tb_next is None and "arguments" in str(e):
                 return boundcall(exp, {}, self)
             raise
 
